@@ -22,3 +22,12 @@ Fixpoint gfilter {A} (c : obj -> A -> gres bool) (l : list A) (self : obj) : gre
                  end
     end
   end.
+
+(* collections.Counter(l).items(): (key, count) pairs, keys in order of first occurrence *)
+Fixpoint counter_add (k : Z) (c : list (Z * Z)) : list (Z * Z) :=
+  match c with
+  | [] => [(k, 1)]
+  | (k', n) :: t => if k =? k' then (k', n + 1) :: t else (k', n) :: counter_add k t
+  end.
+Definition py_counter (l : list Z) : list (Z * Z) := fold_left (fun c k => counter_add k c) l [].
+
